@@ -454,6 +454,7 @@ theorem SameContent.applyDb {a b : Spec} (h : SameContent a b) (e : Eff) :
   | assign s t n f v => exact h.assign s t n f v
   | unassign s t n f => exact h.delTag s t n f
   | rmTree _ => exact h
+  | copyExtra _ => exact h
 
 theorem SameContent.noDangling {a b : Spec} (h : SameContent a b) (hb : NoDangling b) : NoDangling a := by
   intro r hr
@@ -670,6 +671,7 @@ theorem applyF_sim {F : FileDb} (h : WFF F) (hnd : NoDangling (abs F)) (e : Eff)
   | assign s t n f v => exact ⟨wff_fAssign h s t n f v, abs_fAssign h s t n f v⟩
   | unassign s t n f => exact ⟨wff_fUnassign h s t n f, abs_delC h s t n f⟩
   | rmTree _ => exact ⟨h, SameContent.refl _⟩
+  | copyExtra _ => exact ⟨h, SameContent.refl _⟩
 
 /-- the same along a trace, against any content that reads the same and has no dangling tag -/
 theorem foldl_applyF_sim (es : List Eff) {F : FileDb} {c : Spec} (h : WFF F) (hc : SameContent (abs F) c)
